@@ -158,9 +158,23 @@ def check(run):
             elif q == BLK + "::set_block_parameters" and path(c.get("recv")) == ("this", "m_block"):
                 seq.append("rearm")
     tries = [n for n in ir.walk(wb["body"]) if n.get("k") == "Try"]
+    # clear and re-arm are unconditional once the write returned (also when nothing was written: an empty block must
+    # still take over the active parameters)
+    cond_after = []
+    envw = Env(wb["body"])
+    for st, g, loops in ir.guarded_statements(wb["body"], envw):
+        if st.get("k") in ("IfCond", "LoopHead", "SwitchHead"):
+            continue
+        for c in ir.calls_in(st):
+            if callee_qn(c) in (BLK + "::clear", BLK + "::set_block_parameters") and g != ("T",):
+                cond_after.append((callee_name(c), g))
+    if cond_after:
+        seq.append("conditional:%s" % cond_after[0][0])
     ok = seq == ["write", "clear", "rearm"] and not tries
     run.ob("R12.4", "write_block():write-clear-rearm", ok, wb, wb["line"],
            "the buffered block is serialised, then cleared, then re-armed; an exception from the write leaves it buffered" if ok else
+           ("write_block() performs %s only when %s: after set_active_block_parameters() an empty buffered block keeps the old parameters (limit, hints, index)" % (
+               cond_after[0][0], show_f(cond_after[0][1]))) if cond_after else
            "write_block() sequence is %s%s; the block must be cleared only after write_block(m_block) returned normally" % (seq, " inside a try block" if tries else ""))
     rets = [n for n in ir.walk(wb["body"]) if n.get("k") == "Return"]
     run.floor("R12.4", 1, "write_block()")
